@@ -13,6 +13,7 @@ import (
 	"strings"
 	"syscall"
 	"testing"
+	"testing/synctest"
 	"time"
 
 	"github.com/benbjohnson/litestream"
@@ -166,6 +167,7 @@ func nodeFollow(init *NodeInit, e *Env, reply func(NodeResp)) {
 		}
 		if req.Op.Kind == "advance" {
 			time.Sleep(time.Duration(req.Op.Ms) * time.Millisecond)
+			synctest.Wait() // the follower goroutine is quiescent (blocked on its ticker) again
 			select {
 			case err := <-done:
 				reply(NodeResp{Res: "follow-ended:" + errStr(err)})
@@ -182,6 +184,8 @@ func nodeFollow(init *NodeInit, e *Env, reply func(NodeResp)) {
 	case <-time.After(time.Minute):
 	}
 }
+
+var ctxBG = context.Background()
 
 // ---- parent side ---------------------------------------------------------------
 
